@@ -2,7 +2,9 @@
 Spec: spec/Ibb.tla (+IbbGen, IbbTrace). Driver: qxv ibb (two real QXmppTransferManagers, in-band
 method, the harness is the network and applies the behaviour's fault to the block sequence)."""
 import collections
+import os
 import random
+import shutil
 
 import vf
 
@@ -182,7 +184,12 @@ def run(chk, replay=None):
                        "execution drained to quiescence and validated by IbbTrace.tla (C19 predicates on the logged outcome)")
     for b in execs[:2] + execs[-2:]:
         chk.sample({k: v for k, v in b.items() if k != "steps"} | {"steps": short(b)})
-    # one violation per class of behaviour (first = the shortest execution of that class)
+    # one violation per class of behaviour (first = the shortest execution of that class).
+    # Replay files live beside out/C19 (vf.Check empties out/C19 at start, also in --replay mode).
+    rdir = os.path.join(vf.OUT, "C19.replay")
+    if not replay:
+        shutil.rmtree(rdir, ignore_errors=True)
+        os.makedirs(rdir, exist_ok=True)
     by_case = {}
     for v in s["viol"]:
         by_case.setdefault(v["case"], []).append(v)
@@ -195,9 +202,14 @@ def run(chk, replay=None):
                 continue
             reported.add(sig)
             end = cases[case][-1].get("o", {})
+            if replay:
+                rpath = os.path.abspath(replay)      # re-driven from this file: it stays the replay
+            else:
+                rpath = os.path.join(rdir, f"violation-{len(chk.violations) + 1}.ndjson")
+                vf.write_ndjson(rpath, [b] + cases[case])
             chk.violation(sig, f"{v['prop']} fails for {short(b)}: receiver {end.get('rs')}/{end.get('re')}, sender "
                           f"{end.get('ss')}/{end.get('se')}, receiver holds the sent bytes: {end.get('eq')} "
-                          f"({end.get('rlen')} of {end.get('slen')} bytes)", [b] + cases[case])
+                          f"({end.get('rlen')} of {end.get('slen')} bytes)", replay_path=rpath)
     chk.cov["violating_executions"] = len(by_case)
     if crashed and not chk.violations:
         b, sg = crashed
